@@ -81,7 +81,8 @@ type Finding struct {
 	Properties []string `json:"properties"`
 	// Tag names the class predicate of spec/Findings.tla (evaluated by TLC on
 	// each generated case) or a component-level class computed by the spec.
-	Tag      string   `json:"tag"`
+	Tag      string   `json:"tag,omitempty"`
+	Tags     []string `json:"tags,omitempty"`
 	Variants []string `json:"variants,omitempty"` // empty = all
 	MinPar   int      `json:"min_par,omitempty"`
 	MaxPar   int      `json:"max_par,omitempty"`
@@ -167,8 +168,13 @@ func matchFinding(prop string, tags []string, cfg *Config, symptom string) strin
 			continue
 		}
 		for _, t := range tags {
-			if t == f.Tag {
+			if f.Tag != "" && t == f.Tag {
 				return f.ID
+			}
+			for _, ft := range f.Tags {
+				if t == ft {
+					return f.ID
+				}
 			}
 		}
 	}
